@@ -26,8 +26,8 @@ Qed.
 
 Lemma crow_eqb_eq a b : crow_eqb a b = true <-> a = b.
 Proof.
-  destruct a as [i p], b as [j q]. unfold crow_eqb. cbn [fst snd].
-  rewrite andb_true_iff, id_eqb_eq, N.eqb_eq. split; [intros [-> ->]; reflexivity|].
+  destruct a as [[i p] f], b as [[j q] g]. unfold crow_eqb.
+  rewrite !andb_true_iff, id_eqb_eq, !N.eqb_eq. split; [intros [[-> ->] ->]; reflexivity|].
   intros E; inversion E; auto.
 Qed.
 
@@ -435,7 +435,7 @@ Lemma resolve_model db r :
 Proof.
   intros W. induction r as [|e t IH]; intros H; cbn; [reflexivity|].
   rewrite (kfind_in be_id db e W) by (apply H; now left).
-  rewrite IH by (intros x Hx; apply H; now right). now rewrite N.eqb_refl.
+  rewrite IH by (intros x Hx; apply H; now right). now rewrite !N.eqb_refl.
 Qed.
 
 Lemma sorted_hops_true l :
@@ -539,7 +539,7 @@ Proof.
   - unfold insert_beacon. destruct (kfind be_id (b_id b) db) as [e|] eqn:F.
     + destruct (be_ver e <? b_ver b) eqn:C; cbn [fst snd bres_ok]; now rewrite F, ?C.
     + cbn [fst snd bres_ok]. now rewrite F.
-  - reflexivity.
+  - cbn [snd bres_ok]. apply N.eqb_refl.
   - cbn [delete_expired_beacons fst snd bres_ok]. apply N.eqb_refl.
   - cbn [snd bres_ok]. now apply cands_ok_model.
   - cbn [snd bres_ok]. apply sources_same_set.
@@ -552,7 +552,7 @@ Lemma bres_agree_model tick db o :
 Proof.
   intros W. destruct o as [b u|p|now|n u src| |ord p]; cbn [bstep].
   - destruct (insert_beacon tick b u db) as [db' st]. cbn [snd bres_agree]. now rewrite !N.eqb_refl.
-  - reflexivity.
+  - cbn [snd bres_agree]. apply N.eqb_refl.
   - cbn [delete_expired_beacons fst snd bres_agree]. apply N.eqb_refl.
   - cbn [snd bres_agree]. rewrite (list_eqb_refl N.eqb N.eqb_refl). now apply cands_ok_model.
   - cbn [snd bres_agree]. apply (same_set_refl ia_eqb ia_eqb_eq). apply dedup_ia_spec.
@@ -852,7 +852,7 @@ Proof.
   - unfold insert_seg. destruct (kfind pe_id (s_id s) (segs st)) as [e|] eqn:F.
     + destruct (pe_ver e <? s_ver s) eqn:C; cbn [fst snd pres_ok]; now rewrite F, ?C.
     + cbn [fst snd pres_ok]. now rewrite F.
-  - reflexivity.
+  - cbn [snd pres_ok]. apply N.eqb_refl.
   - cbn [delete_expired_segs fst snd pres_ok]. apply N.eqb_refl.
   - cbn [snd pres_ok]. apply (same_set_refl prow_eqb prow_eqb_eq). now apply get_segs_nodup.
   - pose proof (insert_nq_result src dst t (nqs st)) as R.
@@ -866,7 +866,7 @@ Lemma pres_agree_model tick st o :
 Proof.
   intros W. destruct o as [s ty gs|p|now|p|src dst t|src dst]; cbn [pstep].
   - destruct (insert_seg tick s ty gs (segs st)). cbn [snd pres_agree]. now rewrite !N.eqb_refl.
-  - reflexivity.
+  - cbn [snd pres_agree]. apply N.eqb_refl.
   - cbn [delete_expired_segs fst snd pres_agree]. apply N.eqb_refl.
   - cbn [snd pres_agree]. apply (same_set_refl prow_eqb prow_eqb_eq). now apply get_segs_nodup.
   - destruct (insert_nq src dst t (nqs st)). cbn [snd pres_agree]. apply eqb_reflx.
